@@ -28,6 +28,8 @@ pub fn gen_cfg() -> GenCfg {
 }
 
 /// layout: LF/CRLF, optional comments between assignments and inside them
+static UNMARKED: std::sync::atomic::AtomicUsize = std::sync::atomic::AtomicUsize::new(0);
+
 fn layout(toks: &[Tok], src: &mut Src, crlf: bool, commented: bool) -> (String, Vec<usize>) {
     let comments: Vec<Option<String>> = (0..toks.len())
         .map(|i| {
@@ -50,10 +52,37 @@ fn layout(toks: &[Tok], src: &mut Src, crlf: bool, commented: bool) -> (String, 
         })
         .collect();
     let nl = if crlf { "\r\n" } else { "\n" };
+    // multi-line assignments (continuation lines indented after `{` and `,`) and blank lines
+    // between assignments, in about half of the cases: the excerpt logic of contextualize
+    // depends on what follows the failing line
+    let multiline = src.chance(50);
+    let breaks: Vec<u8> = (0..toks.len())
+        .map(|i| {
+            if i == 0 || !multiline {
+                return 0;
+            }
+            let unit_boundary = toks[i - 1].module != toks[i].module || toks[i - 1].item != toks[i].item;
+            if unit_boundary {
+                if src.chance(30) {
+                    2
+                } else {
+                    0
+                }
+            } else if (toks[i - 1].text == "{" || toks[i - 1].text == ",") && src.chance(40) {
+                1
+            } else {
+                0
+            }
+        })
+        .collect();
     render_with(
         toks,
         &|i| {
-            let d = default_sep(toks, i, crlf);
+            let d = match breaks[i] {
+                1 => format!("{nl}  "),
+                2 => format!("{nl}{nl}"),
+                _ => default_sep(toks, i, crlf),
+            };
             match &comments[i] {
                 Some(c) => {
                     let c = if crlf { c.replace('\n', "\r\n") } else { c.clone() };
@@ -237,11 +266,14 @@ fn judge(c: &Case, o: &Obs, path: &Option<String>) -> Option<(&'static str, Stri
             }
         }
         [] => {
-            // no line marked: acceptable only if line r.line is blank or outside the excerpt
+            if UNMARKED.fetch_add(1, std::sync::atomic::Ordering::Relaxed) < 3 && std::env::var("C17_UNMARKED").is_ok() {
+                println!("UNMARKED line={} offset={}\n--- context:\n{}\n--- text:\n{}", r.line, r.offset, o.context, c.text.lines().enumerate().filter(|(i, _)| *i + 3 >= r.line && *i < r.line + 2).map(|(i, l)| format!("{:3} {l}", i + 1)).collect::<Vec<_>>().join("\n"));
+            }
+            // no line marked: acceptable only if the reported line is blank or lies behind the last
+            // line of the input (an error at the very end): every other line must be shown and marked
             let line_text = c.text.lines().nth(r.line - 1).unwrap_or("");
-            let shown = o.context.lines().any(|l| l.trim_start().starts_with(&format!("{:0>1}", r.line)) || l.contains(&format!(" {} │", r.line)));
-            if !line_text.trim().is_empty() && shown {
-                return Some(("marker-line", format!("line {} is shown in the excerpt but not marked", r.line)));
+            if !line_text.trim().is_empty() {
+                return Some(("marker-line", format!("line {} (`{}`) is not marked in the excerpt of contextualize", r.line, line_text.trim().chars().take(60).collect::<String>())));
             }
         }
         _ => return Some(("marker-line", format!("several lines marked: {marked:?}"))),
@@ -346,5 +378,6 @@ pub fn run(tier: Tier, seed: u64, replay: Option<String>) -> i32 {
     for (c, r) in cases.iter().zip(results) {
         handle(&mut ctx, c, r);
     }
+    ctx.extra.insert("excerpts_without_marked_line".into(), json!(UNMARKED.load(std::sync::atomic::Ordering::Relaxed)));
     ctx.finish()
 }
